@@ -615,8 +615,10 @@ def judge(chk, sc, records, idx):
         unlisted = False
         fam = sc.get("family", "core")
         h = rec["hints"]
+        # the directory's own record changed: it is listed again, and entries it did not have before come to light now
+        relisted = [k for k in h["changed"] if unseen.get(k)] + ([""] if h["root_changed"] and unseen.get("") else [])
         for k in h["changed"]:
-            unseen.pop(k, None)           # the directory's own record changed: it is listed again
+            unseen.pop(k, None)
         if h["root_changed"]:
             unseen.pop("", None)
         for k in h["added_unseen"]:
@@ -641,6 +643,8 @@ def judge(chk, sc, records, idx):
                 unlisted |= chk.violation(key_, what, rp(rec, dict(command=cmd)), found_input=True, broken="c12 oracle (detects) on llbuild buildsystem build")
             elif must is False and ran:
                 key_ = "%s-spurious-rerun" % cmd
+                if relisted:
+                    key_ = "filtered-listing-stale-late-%s" % cmd      # finding D3 seen late: the entry was added in an earlier step
                 if cmd == "structure" and sc["pats"] and rec["hints"]["file_root"]:
                     key_ += "-file-root-filtered"
                 what = ("the command with the directory-%s input ran again although " % cmd) + ("nothing beneath the directory changed" if cmd == "tree" else "no entry was added, removed or changed type") + " (%s)" % "; ".join(rec["labels"])
@@ -880,4 +884,8 @@ def replay(chk, rp):
     for r in records:
         print(json.dumps({k: v for k, v in r.items() if k != "hints"}, default=str))
     judge(chk, sc, records, 9999)
-    return chk.finish(level="proof", rule="replay of one recorded scenario (%d builds)" % len(records))
+    if chk.violations:
+        print("REPLAY: the recorded scenario still fails")
+    else:
+        print("REPLAY: the recorded scenario passes now")
+    return run(chk)     # the full check follows, so that the evidence file describes a complete run
